@@ -98,7 +98,11 @@ func stlReadOracle(s *astisub.Subtitles, f *stlFile, ignore bool) (string, strin
 		if g.VP != c.VP {
 			return fmt.Sprintf("cue %d: vertical position %d, file has %d", i+1, g.VP, c.VP), "stl-read-vp"
 		}
-		if g.JC != int(c.JC) {
+		wantJC := int(c.JC)
+		if wantJC > 3 {
+			wantJC = 0 // any other justification byte is "unchanged presentation"
+		}
+		if g.JC != wantJC {
 			return fmt.Sprintf("cue %d: justification %d, file has %d", i+1, g.JC, c.JC), "stl-read-jc"
 		}
 		if d, _ := stlRowsDiff(g.Rows, c.Rows); d != "" {
@@ -611,7 +615,9 @@ func stlRepertoireRows(per int, dollar bool) [][]stlRun {
 // ---- the suite ---------------------------------------------------------------------------------------------
 
 func suiteStl(R *runner, r *rng) {
-	R.rule("stl: ground-truth files (GSI field values, 25/30 fps, display standards 0/1/2, programme start, 0..6 cues with timecodes over h:m:s:f, 1..3 rows of 1..3 runs over the whole Latin table incl. floating diacritic x letter pairs, italic/underline/boxing code sequences in any order with or without closing codes, start/end box and colour/double-height codes under teletext standards, interleaved user-data blocks) x ignore-programme-start; reader vs ground truth (oracle: metadata, times within 1 ns of the exact frame instant minus programme start, rows/runs/flags up to canonical equivalence, vertical position, justification) and vs the Coq model (all values incl. teletext attributes); every table character and every diacritic x letter pair under each display standard; every timecode h:m:s:f at 25 and 30 fps; writer (metadata present / absent / inherited from SRT, WebVTT, SSA, TTML) vs the Coq model (bytes) and oracles: 1024+128n bytes, the harness's own GSI/TTI decoder, the library's reader, second pass keeps every timecode; mutated and truncated files (class and model); field-level suites for the character codec, rows, GSI and TTI blocks; non-trivial = at least one cue / non-empty input")
+	R.rule("stl: ground-truth files (GSI field values, 25/30 fps, display standards 0/1/2, programme start, 0..6 cues with timecodes over h:m:s:f, 1..3 rows of 1..3 runs over the whole Latin table incl. floating diacritic x letter pairs, italic/underline/boxing code sequences in any order with or without closing codes, start/end box and colour/double-height codes under teletext standards, interleaved user-data blocks) x ignore-programme-start; reader vs ground truth (oracle: metadata, times within 1 ns of the exact frame instant minus programme start, rows/runs/flags up to canonical equivalence, vertical position, justification) and vs the Coq model (all values incl. teletext attributes); every table character and every diacritic x letter pair under each display standard; every timecode h:m:s:f at 25 and 30 fps; writer (metadata present / absent / inherited from SRT, WebVTT, SSA, TTML) vs the Coq model (bytes) and oracles: 1024+128n bytes, the harness's own GSI/TTI decoder, the library's reader, second pass keeps every timecode; mutated and truncated files (class and model); field-level suites for the character codec, rows, GSI and TTI blocks; rows also as arbitrary element sequences (style codes redundant / repeated / unclosed / at the row ends, undefined bytes inside rows, trailing blanks, both currency positions) with the harness's own denotation, GSI numbers in all accepted forms, leading blanks, blank timecodes, non-blank spare bytes, arbitrary extension block numbers and justification bytes (stl.free.* counts); stl.needs: the worked instances of C05_read_rendered and the documents of its computed counter-examples, model vs library and the meaning the Coq examples state; non-trivial = at least one cue / non-empty input")
+	stlCountR = R
+	defer func() { stlCountR = nil }()
 	saved := astisub.Now
 	astisub.Now = func() time.Time { return stlNow }
 	defer func() { astisub.Now = saved }()
@@ -838,6 +844,7 @@ func suiteStl(R *runner, r *rng) {
 	}
 
 	suiteStlFields(R, r, N)
+	suiteStlNeeds(R, r)
 }
 
 // read a generated file, write it again, decode: every timecode of a subtitle block is unchanged
